@@ -23,6 +23,9 @@ structure SubstV {α : Type _} (z : α) (neg : α → α) (prim : String → α 
     (V.net.line l).driver = (h.net.line l).driver ∧ (V.net.line l).dpin = (h.net.line l).dpin
   rdrFrame : ∀ l, l < h.net.lines.size → (h.net.line l).reader ≠ c →
     (V.net.line l).reader = (h.net.line l).reader ∧ (V.net.line l).rpin = (h.net.line l).rpin
+  newDrv : ∀ t, t < (copiedLines m map).length →
+    (V.net.line (h.net.lines.size + t)).driver = c ∨ h.net.nodes.size ≤ (V.net.line (h.net.lines.size + t)).driver
+  outDrv : ∀ l, l < h.net.lines.size → (h.net.line l).driver = c → (V.net.line l).driver = c ∨ h.net.nodes.size ≤ (V.net.line l).driver
   mapM : ∀ j x, map.getD j none = some x → j < m.net.nodes.size
   mapGe : ∀ j x, map.getD j none = some x → x = c ∨ h.net.nodes.size ≤ x
   mapLt : ∀ j x, map.getD j none = some x → x < V.net.nodes.size
@@ -70,6 +73,9 @@ structure SubstG {α : Type _} (z : α) (neg : α → α) (prim : String → α 
   hostDrv : ∀ l', l' < h'.net.lines.size → R.line l' < h.net.lines.size → (h.net.line (R.line l')).driver ≠ c →
     R.node (h'.net.line l').driver = (h.net.line (R.line l')).driver ∧
     ((h'.net.line l').dpin = (h.net.line (R.line l')).dpin ∨ (h.net.node (h.net.line (R.line l')).driver).isFork = true)
+  /-- a line of the result that is driven by a host node other than the cell is a host line that was not driven by the cell -/
+  lineDrvHost : ∀ l', l' < h'.net.lines.size → R.node (h'.net.line l').driver < h.net.nodes.size → R.node (h'.net.line l').driver ≠ c →
+    R.line l' < h.net.lines.size ∧ (h.net.line (R.line l')).driver ≠ c
   fw : ∀ (S : Nat → Prop), (∀ s, S s → s < h.net.nodes.size ∧ s ≠ c) → ∀ (pre an' v' : Nat → α),
     ConsOff h' (fun j' => S (R.node j')) z neg prim an' v' →
     ∃ an v anm vm, ConsOff h (fun d => S d ∨ d = c) z neg prim an v ∧ ImplMatches h c m sh z neg prim anm vm v ∧
@@ -102,7 +108,7 @@ theorem substG_of {α : Type _} {z : α} {neg : α → α} {prim : String → α
       rw [List.getD_eq_getElem?_getD, List.getElem?_eq_getElem ht, Option.getD_some, hvm _ ht]
       congr 1; omega
   refine ⟨w', fun j x hx => ⟨sv.mapM j x hx, sv.mapGe j x hx⟩, sv.mapInj, e.nodeInj, e.lineInj,
-    fun l' hl' => by rw [← sv.lsize]; exact e.lineLt l' hl', by rw [e.io, sv.io], ?_, ?_, hN, ?_, ?_, ?_, ?_, ?_⟩
+    fun l' hl' => by rw [← sv.lsize]; exact e.lineLt l' hl', by rw [e.io, sv.io], ?_, ?_, hN, ?_, ?_, ?_, ?_, ?_, ?_⟩
   · intro j' hj' h1 h2
     refine ⟨by rw [e.kind j' hj', sv.frameNode _ h1 h2], by rw [e.name j' hj', sv.nameFrame _ h1], fun k => ?_⟩
     rw [e.pins j' hj' (fun x => x) k, sv.frameNode _ h1 h2]
@@ -136,6 +142,20 @@ theorem substG_of {α : Type _} {z : α} {neg : α → α} {prim : String → α
       have hb := (hw.back _ hlt).1
       rw [sv.frameNode _ hb hne] at hk
       rw [← isFork_of_kind_eq hk]; exact d3
+  · intro l' hl' h1 h2
+    obtain ⟨_, d2, _⟩ := e.drv l' hl'
+    have hlt := e.lineLt l' hl'
+    rw [sv.lsize] at hlt
+    have hnown : ¬ ((V.net.line (R.line l')).driver = c ∨ h.net.nodes.size ≤ (V.net.line (R.line l')).driver) := by
+      rw [d2]; rintro (hc' | hc')
+      · exact h2 hc'
+      · omega
+    have hL : R.line l' < h.net.lines.size := by
+      apply Classical.byContradiction; intro hge
+      have := sv.newDrv (R.line l' - h.net.lines.size) (by omega)
+      rw [show h.net.lines.size + (R.line l' - h.net.lines.size) = R.line l' by omega] at this
+      exact hnown this
+    exact ⟨hL, fun hd => hnown (sv.outDrv _ hL hd)⟩
   · intro S hS pre an' v' hc'
     obtain ⟨anV, vV, cV, a1, a2, a3⟩ := x S pre an' v' hc'
     obtain ⟨f1, anm, vm, f2, f3, f4⟩ := sv.forward S hS anV vV cV
